@@ -228,9 +228,9 @@ func saturate(n int) int {
 type Exit struct {
 	State  *State
 	Pos    token.Pos
-	Vals   []Val  // abstract values of the returned expressions
+	Vals   []Val    // abstract values of the returned expressions
 	Exprs  []string // source text of the returned expressions
-	Index  int    // ordinal of the return statement in source order
+	Index  int      // ordinal of the return statement in source order
 	Panics bool
 }
 
